@@ -382,7 +382,13 @@ package cmd
 
 // ---------------------------------------------------------------- sum over files (C10, C16)
 
+//@ lemma shapes_len(tl TimeSeriesList, ul TimeSeriesList)
+//@   props C10 C11
+//@   requires sameShapes(tl, ul) && allShaped(tl) && allShaped(ul)
+//@   ensures lens: len(tl) == len(ul) && (forall a :: 0 <= a && a < len(tl) ==> tsLen(tl[a]) == tsLen(ul[a]))
+
 //@ func sumWhisperFileLocal
+//@   use shapes_len(tsListList[0], tsListList[q]) when 1 <= q && q < len(tsListList) forall q before sumTimeSeriesListList
 //@   props C10 C16 C13
 //@   requires now != 0 && now - from <= 2147483647
 //@   modifies ghost(nopen, 0), ghost(nlocked, 0)
